@@ -26,7 +26,7 @@ def codecItem (S : Schema) (name : String) (fuel : Nat) (ty : Option Ty) (j : Js
       out := out ++ [("wf", Json.bool (wf t v)), ("spec_bytes", J.natsToJson (encBytes t v)),
                      ("spec_bits", (enc t v).length),
                      ("cpp_bytes", J.natsToJson (pack (Cpp.cppEnc t v))),
-                     ("dyn_bytes", J.natsToJson (Cpp.dynEnc t v)),
+                     ("dyn_bytes", J.natsToJson (pack (Cpp.dynEnc t v))),
                      ("byte_granular", Json.bool (Cpp.ByteGranular t)), ("widths", Json.bool (Cpp.Widths t))]
     | none => pure ()
     out := out ++ [("py_enc", exceptJson J.natsToJson (pyEncode S fuel name v))]
